@@ -122,7 +122,7 @@ func applyJSONPatchOperation(docBytes []byte, op jsonpatch.Patch) (result []byte
 		}
 	}()
 
-	if targetsOwnSource(op) {
+	if targetsOwnSource(op, docBytes) {
 		return nil, fmt.Errorf("json patch operation failed: cannot move or copy a location into one of its children")
 	}
 
@@ -132,7 +132,12 @@ func applyJSONPatchOperation(docBytes []byte, op jsonpatch.Patch) (result []byte
 // targetsOwnSource reports whether a move/copy operation names a target below its own source. The patch library
 // links the source node into the target instead of copying it, so such an operation would make the document
 // contain itself and serializing it would never end.
-func targetsOwnSource(op jsonpatch.Patch) bool {
+func targetsOwnSource(op jsonpatch.Patch, docBytes []byte) bool {
+	var doc interface{}
+	if json.Unmarshal(docBytes, &doc) != nil {
+		return false
+	}
+
 	for _, o := range op {
 		var kind, from, path string
 
@@ -140,7 +145,7 @@ func targetsOwnSource(op jsonpatch.Patch) bool {
 			continue
 		}
 
-		if (kind == "copy" || kind == "move") && isBelow(path, from) {
+		if (kind == "copy" || kind == "move") && isBelow(path, from, doc) {
 			return true
 		}
 	}
@@ -157,7 +162,7 @@ var pointerTokenDecoder = strings.NewReplacer("~1", "/", "~0", "~")
 // isBelow reports whether JSON pointer 'path' addresses a location strictly below JSON pointer 'from'. Reference
 // tokens are compared the way the patch library resolves them: whatever precedes the first '/' is ignored, tokens
 // are unescaped, and "0", "+0" and "00" all name the first array element.
-func isBelow(path, from string) bool {
+func isBelow(path, from string, node interface{}) bool {
 	f, p := strings.Split(from, "/"), strings.Split(path, "/")
 	if len(p) <= len(f) {
 		return false
@@ -165,14 +170,29 @@ func isBelow(path, from string) bool {
 
 	for i := 1; i < len(f); i++ {
 		a, b := pointerTokenDecoder.Replace(f[i]), pointerTokenDecoder.Replace(p[i])
-		if a == b {
-			continue
-		}
 
-		x, errX := strconv.Atoi(a)
-		y, errY := strconv.Atoi(b)
+		// spellings of one number name one element of a list, but different members of an object
+		switch container := node.(type) {
+		case map[string]interface{}:
+			if a != b {
+				return false
+			}
 
-		if errX != nil || errY != nil || x != y {
+			node = container[a]
+		case []interface{}:
+			x, errX := strconv.Atoi(a)
+			y, errY := strconv.Atoi(b)
+
+			if errX != nil || errY != nil || x != y {
+				return false
+			}
+
+			if x < 0 || x >= len(container) {
+				return false
+			}
+
+			node = container[x]
+		default:
 			return false
 		}
 	}
